@@ -5,6 +5,8 @@ CONSTANTS
   Sizes = {0, 3}
   Tamper = FALSE
   LenVals = {}
+  CutOffsets = {2}
+  CutWindow = 2
 VIEW view
 INVARIANTS TypeOK ReadBackIdentically ResponseWhereBodyExpected NoAdversaryNoStop GrammarRoundTrip
 CHECK_DEADLOCK FALSE
